@@ -260,15 +260,30 @@ Arguments replace_all {A}.
 (* values and Python's str()/repr()/truthiness on them                  *)
 
 (* loop items: strings, string-valued dicts (in dict order), ints, bools, None, and values
-   whose str() / repr() / json.dumps() the harness supplies pre-rendered (floats, tuples) *)
+   whose str() / repr() / json.dumps() the harness supplies pre-rendered (floats, tuples, and
+   OBJECTS OF ANY OTHER TYPE that json.dumps accepts: members of a str- or int-mixin Enum, instances of
+   str / int subclasses with a __str__ of their own - for those str(), repr(), json.dumps() are three
+   DIFFERENT texts and none of them need be the character data of the object).
+   [IDictO kvs s r j] is a dict whose VALUES are such objects: kvs gives, per key in dict order,
+   str(value) - what the loop context binds {{key}} to -, and s r j are str() / repr() /
+   json.dumps() of the dict itself (IDict kvs is the case of plain-string values, where the three are
+   computed). *)
 Inductive item :=
 | IStr (s : str) | IDict (kvs : list (str * str))
-| IInt (z : Z) | IBool (b : bool) | INone | IOpaque (s r j : str).
+| IInt (z : Z) | IBool (b : bool) | INone | IOpaque (s r j : str)
+| IDictO (kvs : list (str * str)) (s r j : str).
 (* context values: ..., None, a pre-rendered value with its truthiness (finite floats: str(),
-   repr() and json.dumps() of a finite float are the same text), tuples *)
+   repr() and json.dumps() of a finite float are the same text), tuples, and
+   [VObj s r j t n]: an object of ANY other type, given by what Python's protocols answer for it:
+   str(v) = s, repr(v) = r, json.dumps(v) = j (None: TypeError, not serialisable), bool(v) = t,
+   len(v) = n (None: TypeError, unsized).  The five are independent: a member of
+   class Priority(str, Enum) has s = "Priority.HIGH", r = "<Priority.HIGH: 'high'>", j = the data in JSON quotes,
+   n = 4; a str subclass may print as "<redacted>" whatever its data; an object may be falsy and
+   print as anything.  It is not a list or a tuple (isinstance), so {{#each}} skips it. *)
 Inductive value :=
 | VStr (s : str) | VInt (z : Z) | VBool (b : bool) | VList (l : list item)
-| VNone | VOpaque (s : str) (t : bool) | VTuple (l : list item).
+| VNone | VOpaque (s : str) (t : bool) | VTuple (l : list item)
+| VObj (s r : str) (j : option str) (t : bool) (n : option Z).
 (* isinstance(v, (list, tuple)) *)
 Definition seq_of (v : value) : option (list item) :=
   match v with VList l | VTuple l => Some l | _ => None end.
@@ -333,11 +348,13 @@ Definition repr_item (it : item) : str :=
   match it with
   | IStr s => py_repr s | IDict kvs => repr_dict kvs
   | IInt z => dec z | IBool b => str_bool b | INone => S_NONE | IOpaque _ r _ => r
+  | IDictO _ _ r _ => r
   end.
 Definition str_item (it : item) : str :=
   match it with
   | IStr s => s | IDict kvs => repr_dict kvs
   | IInt z => dec z | IBool b => str_bool b | INone => S_NONE | IOpaque s _ _ => s
+  | IDictO _ s _ _ => s
   end.
 Definition str_value (v : value) : str :=
   match v with
@@ -349,6 +366,7 @@ Definition str_value (v : value) : str :=
   | VOpaque s _ => s
   | VTuple l => [40] ++ join [44; 32] (map repr_item l) ++
                 match l with [_] => [44] | _ => [] end ++ [41]
+  | VObj s _ _ _ _ => s
   end.
 Definition truthy (v : value) : bool :=
   match v with
@@ -359,11 +377,12 @@ Definition truthy (v : value) : bool :=
   | VNone => false
   | VOpaque _ t => t
   | VTuple l => nonempty l
+  | VObj _ _ _ t _ => t
   end.
 
 (* repr() of a context value: quoted for a str, otherwise the same text as str() *)
 Definition repr_value (v : value) : str :=
-  match v with VStr s => py_repr s | _ => str_value v end.
+  match v with VStr s => py_repr s | VObj _ r _ _ _ => r | _ => str_value v end.
 
 (* json.dumps() with the default arguments (ensure_ascii; separators comma-space and
    colon-space): a str is put in double quotes; the double quote, the backslash and the
@@ -395,6 +414,7 @@ Definition json_item (it : item) : str :=
   match it with
   | IStr s => json_str s | IDict kvs => json_dict kvs
   | IInt z => dec z | IBool b => json_bool b | INone => S_JNULL | IOpaque _ _ j => j
+  | IDictO _ _ _ j => j
   end.
 Definition json_value (v : value) : str :=
   match v with
@@ -404,6 +424,7 @@ Definition json_value (v : value) : str :=
   | VNone => S_JNULL
   | VOpaque s _ => s
   | VList l | VTuple l => [91] ++ join [44; 32] (map json_item l) ++ [93]
+  | VObj _ _ j _ _ => match j with Some t => t | None => [] end
   end.
 
 (* ------------------------------------------------------------------ *)
@@ -435,7 +456,7 @@ Definition title (s : str) : str := title_go false s.
 
 Inductive error :=
 | EMissing (x : str)      (* ValueError("Missing required variable: x") in strict mode *)
-| EType                   (* TypeError: len() of an int / bool *)
+| EType                   (* TypeError: len() of an unsized value (int, bool, ...), json.dumps() of an object it cannot serialise *)
 | EFuel.                  (* include recursion deeper than the number of templates: RecursionError *)
 
 (* str(len(x)) *)
@@ -443,7 +464,14 @@ Definition len_filter (v : value) : str + error :=
   match v with
   | VStr s => inl (dec (Z.of_nat (length s)))
   | VList l | VTuple l => inl (dec (Z.of_nat (length l)))
+  | VObj _ _ _ _ (Some n) => inl (dec n)
   | _ => inr EType
+  end.
+(* json.dumps(x): TypeError for an object json cannot serialise *)
+Definition json_filter (v : value) : str + error :=
+  match v with
+  | VObj _ _ None _ _ => inr EType
+  | _ => inl (json_value v)
   end.
 Definition builtin_filter (f : str) (v : value) : str + error :=
   if str_eqb f F_UPPER then inl (map up_char (str_value v))
@@ -451,7 +479,7 @@ Definition builtin_filter (f : str) (v : value) : str + error :=
   else if str_eqb f F_TRIM then inl (strip (str_value v))
   else if str_eqb f F_LENGTH then len_filter v
   else if str_eqb f F_TITLE then inl (title (str_value v))
-  else if str_eqb f F_JSON then inl (json_value v)
+  else if str_eqb f F_JSON then json_filter v
   else inl (repr_value v).        (* F_REPR; only called on [is_filter] names *)
 
 (* Ribosome(filters={name: callable}): self.filters = {**BUILTIN_FILTERS, **filters}, so a custom
@@ -462,8 +490,13 @@ Definition builtin_filter (f : str) (v : value) : str + error :=
      CWrap    lambda x: "{{" + str(x) + "}}"                           its RESULT carries template syntax
      CStr     str                                                      the value itself
      CLen     len                                                      returns an int; TypeError on unsized values
+     CTag     lambda x: Tagged(str(x))                                 its RESULT is an instance of a str SUBCLASS whose
+                                                                       __str__ is not its character data: str(Tagged(d)) =
+                                                                       "<<" + d[::-1] + ">>"
    (translate() renders str(filter(value))). *)
-Inductive cfilter := CParens | CRev | CWrap | CStr | CLen.
+Inductive cfilter := CParens | CRev | CWrap | CStr | CLen | CTag.
+Definition K_TAG_OPEN := Eval vm_compute in zs "<<".
+Definition K_TAG_CLOSE := Eval vm_compute in zs ">>".
 Definition paren_char (c : Z) : Z := if c =? LB then 40 else if c =? RB then 41 else c.
 Definition apply_custom (cf : cfilter) (v : value) : str + error :=
   match cf with
@@ -472,6 +505,7 @@ Definition apply_custom (cf : cfilter) (v : value) : str + error :=
   | CWrap => inl (K_OPEN ++ str_value v ++ K_CLOSE)
   | CStr => inl (str_value v)
   | CLen => len_filter v
+  | CTag => inl (K_TAG_OPEN ++ rev (str_value v) ++ K_TAG_CLOSE)
   end.
 Definition ftable := list (str * cfilter).
 (* the custom table of the instance; every definition below takes it implicitly *)
@@ -538,11 +572,15 @@ Definition K_ITEM := Eval vm_compute in zs "item".
 Definition K_INDEX := Eval vm_compute in zs "index".
 Definition K_FIRST := Eval vm_compute in zs "first".
 Definition K_LAST := Eval vm_compute in zs "last".
+(* parameter names of the API before e868ad8 (Model.result_on_legacy) *)
+Definition K_SELF := Eval vm_compute in zs "self".
+Definition K_TEMPLATE := Eval vm_compute in zs "template".
+Definition K_SEQUENCE := Eval vm_compute in zs "sequence".
 Definition loop_context (i n : nat) (it : item) : list (str * str) :=
   let base := [(K_DOT, str_item it); (K_ITEM, str_item it); (K_INDEX, dec (Z.of_nat i));
                (K_FIRST, str_bool (Nat.eqb i 0)); (K_LAST, str_bool (Z.of_nat i =? Z.of_nat n - 1))] in
   match it with
-  | IDict kvs => fold_left (fun d kv => dict_set d (fst kv) (snd kv)) kvs base
+  | IDict kvs | IDictO kvs _ _ _ => fold_left (fun d kv => dict_set d (fst kv) (snd kv)) kvs base
   | _ => base
   end.
 Definition key_pattern (k : str) : str := K_OPEN ++ k ++ K_CLOSE.
